@@ -419,6 +419,112 @@ example :
       ⟨0, [⟨0, .ready true true false true, .n 1, [.winch, .term], true, .n 1, .again⟩]⟩
     r.res = .err .quit ∧ r.st.evq = [.resize] ∧ drains r.log = 0 := by decide
 
+/-! ## C17_winch -/
+
+/-- **C17_winch.** Window-size signals are delivered as events, whatever output is pending.
+(`winches sigs` = number of SIGWINCH in the pending set, `resizesIn l` = number of `Resize` entries.)
+
+1. *ioctl size* (`self.size = None`): an iteration whose `select` reports the signal pipe readable, with SIGWINCH
+   in the pending set, no termination signal in it, `size()` working and no tty write error before, queues one
+   `Resize` per SIGWINCH in that very iteration (the iteration may still end the poll with a later error — the
+   `Resize` is queued all the same and stays queued, `C17_order`) — unless the iteration is skipped because the
+   deadline has passed.  Pending output plays no role.
+2. *escape-sequence size* (`self.size = Some(_)`): the signal phase appends one size query `ESC[18t ESC[14t` per
+   SIGWINCH at the END of the write queue, behind all pending output, and queues no event itself;
+3. every poll hands the queued bytes to the tty in queue order (`handed ++ still queued = queued before ++ queued
+   by the loop`), so the query reaches the tty once the output before it has been written — unless
+   `frames_drop` removes its frame; but
+4. `frames_drop` in this mode re-queues the query behind the frame that is kept (repair 88baf18), so a query is
+   pending after every `frames_drop`;
+5. when the size report arrives in the input (`isSize e`), the decode loop queues `Resize` (right before the
+   report event itself). -/
+theorem C17_winch (d : Dec ε σ) :
+    (∀ dl (it : Iter) first (a : Acc ε σ) wk tr tw,
+        it.sel = .ready wk true tr tw → it.wr ≠ .fail → it.sizeOk = true → a.st.sizeEsc = false →
+        (∀ s ∈ it.sigs, isTermSig s = false) →
+        step d dl it first a = .stop a .ok ∨
+          resizesIn a.pushed + winches it.sigs ≤ resizesIn (sacc (step d dl it first a)).pushed) ∧
+    (∀ (a : Acc ε σ) (sigs : List Sig) (ok : Bool), a.st.sizeEsc = true → (∀ s ∈ sigs, isTermSig s = false) →
+        (phaseSignals a true sigs ok).2 = none ∧
+        flat (phaseSignals a true sigs ok).1.st.wq = flat a.st.wq ++ (List.replicate (winches sigs) getTermSize).flatten ∧
+        (phaseSignals a true sigs ok).1.pushed = a.pushed) ∧
+    (∀ (st : St ε σ) (to : Option Nat) (env : PollEnv),
+        ∃ inj, handed (poll d st to env).log ++ flat (poll d st to env).st.wq = flat st.wq ++ inj) ∧
+    (∀ (st : St ε σ), flat (framesDrop st).wq = st.wq.asSlice ++ (if st.sizeEsc then getTermSize else [])) ∧
+    (∀ (a : Acc ε σ) (es : List ε) (e : ε), a.st.sizeEsc = true → e ∈ es → d.isSize e = true →
+        resizesIn a.pushed + 1 ≤ resizesIn (pushDecoded d a es).pushed) := by
+  refine ⟨?_, ?_, poll_cons d, ?_, fun a es e hm he hs => pushDecoded_size d es a hm e he hs⟩
+  · intro dl it first a wk tr tw hsel hwr hsize hm hnt
+    unfold step
+    generalize delayOf dl it.now first = dly
+    cases dly with
+    | brk => exact Or.inl rfl
+    | wait delay =>
+      right
+      dsimp only
+      rw [hsel]
+      dsimp only
+      have e0 : (a.sys (.select delay (!a.st.wq.isEmpty))).pushed = a.pushed ∧
+          (a.sys (.select delay (!a.st.wq.isEmpty))).st.sizeEsc = false := ⟨rfl, hm⟩
+      generalize (a.sys (.select delay (!a.st.wq.isEmpty))) = a0 at e0 ⊢
+      unfold body
+      obtain ⟨w1, w2, w3, -⟩ := phaseWrite_ok a0 (tw && !a.st.wq.isEmpty) it.wr hwr
+      generalize phaseWrite a0 (tw && !a.st.wq.isEmpty) it.wr = r1 at w1 w2 w3 ⊢
+      obtain ⟨a1, o1⟩ := r1
+      simp only at w1 w2 w3
+      subst w1
+      simp only
+      have hs := signalLoop_winch_ioctl it.sigs (a1.sys .sigPending) (by simp [Acc.sys, w3, e0.2]) hnt
+      have hps : phaseSignals a1 true it.sigs it.sizeOk = signalLoop (a1.sys .sigPending) true it.sigs := by
+        simp [phaseSignals, hsize]
+      rw [hps]
+      generalize signalLoop (a1.sys .sigPending) true it.sigs = r2 at hs ⊢
+      obtain ⟨a2, o2⟩ := r2
+      obtain ⟨s1, s2, -, -⟩ := hs
+      simp only at s1 s2
+      subst s1
+      simp only
+      have hcount : resizesIn a2.pushed = resizesIn a.pushed + winches it.sigs := by
+        rw [s2]
+        simp [Acc.sys, w2, e0.1, resizesIn, List.countP_append, List.countP_replicate, isResize]
+      have h3 := trk_resizes_mono (trk_phaseWaker d a2 wk it.wk)
+      generalize phaseWaker a2 wk it.wk = r3 at h3 ⊢
+      obtain ⟨a3, o3⟩ := r3
+      cases o3 with
+      | some e => simp only [sacc] at *; omega
+      | none =>
+        simp only
+        have h4 := trk_resizes_mono (trk_phaseInput d a3 tr it.inp)
+        generalize phaseInput d a3 tr it.inp = r4 at h4 ⊢
+        obtain ⟨a4, o4⟩ := r4
+        cases o4 <;> (simp only [sacc] at *; omega)
+  · intro a sigs ok hm hnt
+    simp only [phaseSignals, ↓reduceIte]
+    have := signalLoop_winch_escape sigs (a.sys .sigPending) (by simpa [Acc.sys] using hm) hnt ok
+    simpa [Acc.sys] using this
+  · intro st
+    unfold framesDrop
+    by_cases h : st.sizeEsc = true
+    · simp [h, flat_write, flat_clearButLast]
+    · simp [h, flat_clearButLast]
+
+/-- SIGWINCH while 5 bytes of output are pending and the tty accepts only 2 of them: `Resize` is queued in that
+iteration and returned at the deadline, 3 bytes still pending -/
+example :
+    let r := poll simpleDec ⟨⟨[[1, 2, 3, 4, 5]]⟩, [], [], false⟩ (some 10)
+      ⟨0, [⟨1, .ready false true false true, .n 2, [.winch], true, .again, .again⟩, ⟨11, .fail, .again, [], true, .again, .again⟩]⟩
+    r.res = .ok (some .resize) ∧ flat r.st.wq = [3, 4, 5] := by decide
+
+/-- escape-sequence size: the query is queued behind the pending output; `frames_drop` re-queues it; the size
+report in the input yields `Resize` followed by the report event -/
+example :
+    let st : St SEv (List Nat) := ⟨⟨[[1, 2], [3]]⟩, [], [], true⟩
+    flat (framesDrop st).wq = [1, 2] ++ getTermSize ∧
+    (poll simpleDec ⟨WQ.new, [], [], true⟩ none
+      ⟨0, [⟨0, .ready false false true false, .again, [], true, .again,
+        .bytes [27, 91, 56, 59, 53, 48, 59, 49, 51, 50, 116, 27, 91, 52, 59, 49, 59, 49, 116]⟩]⟩).pushed = [.resize, .input .size] := by
+  decide
+
 /-! ## C17_bounded_partial -/
 
 /-- **C17_bounded_partial.** The bookkeeping part (proved, for every environment):
